@@ -32,7 +32,7 @@ LEVEL_TEXT = {
     "C08": {"engine": "symrt (engine D)", "technique": D_TECH, "note": D_NOTE,
             "text": "bounded symbolic execution of the real replication_fetcher.rs: each fetcher entry point from arbitrary small states with symbolic 256-bit distances, symbolic deadlines and clock; obligations per call (held/in-range/farthest filters, no duplicate fetch, parallel limit, closest first, expiry reporting, completion) and a 2-round bounded progress obligation"},
     "C09": {"engine": "symrt (engine D)", "technique": D_TECH, "note": D_NOTE,
-            "text": "per-round obligations of replication decided on the real try_interval_replication / get_replicate_candidates / add_keys_to_replication_fetcher / add_keys bodies with symbolic distances, range and timestamps; multi-round convergence itself is not claimed"},
+            "text": "per-round obligations of replication decided on the real try_interval_replication / get_replicate_candidates / add_keys_to_replication_fetcher / add_keys bodies with symbolic distances, range and timestamps; the node-side fetch of an advertised key from its holder (replication.rs) through to store_replicated_in_record; multi-round convergence itself is not claimed"},
     "C11": {"engine": "symrt (engine D)", "technique": D_TECH, "note": D_NOTE,
             "text": "closeness decisions (sort_peers_by_address/key, get_peers_in_range, get_replicate_candidates, calculate_get_closest_peers) executed symbolically over 256-bit symbolic hashes: output order, k-nearest and range filters compared with the XOR integer by the solver"},
     "C12": {"engine": "kani (engine K)", "technique": K_TECH, "note": "trusted: Kani/CBMC, the stubs listed per harness in evidence.coverage.harnesses (tracing no-ops, fmt::format, rmp decoder in the slicing harnesses); reduced claim: tag table, header size, decoder inverse, slicing logic; full value round trips through serde-derive+rmp are outside",
